@@ -211,7 +211,9 @@ impl Prop for C05 {
                 if let Some((f, i)) = custom {
                     // custom angles replace the method's angle definition; an interval-defined Isha keeps its interval
                     s.fajr_angle = Some(F(f));
-                    if s.intervals().1 == 0.0 {
+                    // an interval-defined Isha keeps its interval; in half of those cases the (then unused) Isha angle is
+                    // set as well - the reported Isha is still Maghrib + n and nothing may be flagged
+                    if s.intervals().1 == 0.0 || (f.to_bits() >> 3) & 1 == 0 {
                         s.isha_angle = Some(F(i));
                     }
                 }
